@@ -422,6 +422,48 @@ Proof.
   cbn [map parse_slots]. rewrite (tx_parse_slot o Ho), IH. reflexivity.
 Qed.
 
+(** "ddd" (a whole number of microlitres, as written for an all-int volume list) is read as 100 * ddd
+    hundredths: the same number as "ddd.0" *)
+Lemma tx_parse_hundredths_int n : parse_hundredths (decN n) = Some (100 * n)%N.
+Proof.
+  unfold parse_hundredths. change (decN n) with (join "." [decN n]) at 1.
+  rewrite rc_split_join; [|apply rc_decN_no; reflexivity|constructor].
+  rewrite parse_decN_decN. reflexivity.
+Qed.
+
+(** the text of one slot in the whole-number spelling *)
+Definition tx_slot_field_int (o : option Z) : string :=
+  match o with Some h => tx_quote (decZ (h / 100)) | None => "0" end.
+
+Lemma tx_parse_slot_int o : tx_slot_ok o -> slot_whole o -> parse_slot (tx_slot_field_int o) = Some o.
+Proof.
+  destruct o as [h|]; [|intros _ _; reflexivity]. intros H [z Hz]. cbn [tx_slot_ok] in H. subst h.
+  assert (Hz0 : (0 <= z)%Z) by lia.
+  unfold parse_slot, tx_slot_field_int.
+  replace (100 * z / 100)%Z with z by (rewrite Z.mul_comm, Z.div_mul; [reflexivity|discriminate]).
+  replace (String.eqb (tx_quote (decZ z)) "0") with false by reflexivity.
+  rewrite tx_unquote by (apply rc_decZ_no; [reflexivity|exact Hz0]).
+  rewrite rc_decZ_nonneg by exact Hz0. rewrite tx_parse_hundredths_int.
+  rewrite N2Z.inj_mul, Z2N.id by exact Hz0. reflexivity.
+Qed.
+
+Lemma tx_parse_slots_int sl : Forall tx_slot_ok sl -> Forall slot_whole sl ->
+  parse_slots (map tx_slot_field_int sl) = Some sl.
+Proof.
+  induction 1 as [|o sl Ho Hsl IH]; intro Hw; [reflexivity|].
+  inversion Hw as [|o' sl' Hwo Hwsl]. subst o' sl'.
+  cbn [map parse_slots]. rewrite (tx_parse_slot_int o Ho Hwo), (IH Hwsl). reflexivity.
+Qed.
+
+Lemma tx_slot_field_int_no c o : tx_slot_ok o -> is_digit c = false -> c <> dq ->
+  contains_char c (tx_slot_field_int o) = false.
+Proof.
+  intros Ho Hc Hq. destruct o as [h|]; cbn [tx_slot_field_int].
+  - cbn [tx_slot_ok] in Ho. rewrite tx_contains_quote by exact Hq. apply rc_decZ_no; [exact Hc|].
+    apply Z.div_pos; lia.
+  - apply rc_digits_no; [exact Hc|reflexivity].
+Qed.
+
 Lemma tx_slot_field_no c o : is_digit c = false -> c <> "."%char -> c <> dq ->
   contains_char c (tx_slot_field o) = false.
 Proof.
@@ -468,6 +510,28 @@ Proof.
   unfold render_cmd, tx_cmd_fields.
   rewrite tx_join_cons_ne by discriminate. rewrite tx_join_cons_ne by (destruct (map tx_slot_field (cm_slots c)); discriminate).
   rewrite tx_join_slots by discriminate.
+  unfold tx_tail_fields. cbn [join]. rewrite !tx_quote_app. cbn [append]. reflexivity.
+Qed.
+
+Definition tx_cmd_fields_int (c : cmd) : list string :=
+  decZ (cm_mask c) :: tx_quote (cm_lc c) :: (map tx_slot_field_int (cm_slots c) ++ tx_tail_fields c)%list.
+
+Lemma tx_join_slots_int sl rest : rest <> [] ->
+  join "," (map tx_slot_field_int sl ++ rest)%list = render_slots_int sl ++ join "," rest.
+Proof.
+  intro Hr. induction sl as [|o sl IH]; [reflexivity|].
+  cbn [map app]. rewrite tx_join_cons_ne by (destruct (map tx_slot_field_int sl); [exact Hr|discriminate]).
+  rewrite IH. destruct o as [h|]; cbn [tx_slot_field_int render_slots_int].
+  - rewrite tx_quote_app. cbn [append]. rewrite !sv_append_assoc. reflexivity.
+  - cbn [append]. reflexivity.
+Qed.
+
+Lemma tx_render_cmd_int_join c :
+  render_cmd_int c = "B;" ++ (cm_kind c ++ String "(" (join "," (tx_cmd_fields_int c))).
+Proof.
+  unfold render_cmd_int, tx_cmd_fields_int.
+  rewrite tx_join_cons_ne by discriminate. rewrite tx_join_cons_ne by (destruct (map tx_slot_field_int (cm_slots c)); discriminate).
+  rewrite tx_join_slots_int by discriminate.
   unfold tx_tail_fields. cbn [join]. rewrite !tx_quote_app. cbn [append]. reflexivity.
 Qed.
 
@@ -535,6 +599,41 @@ Proof.
   rewrite F, S, (tx_parse_slots _ Hsl). apply tx_parse_cmd_tail. exact V.
 Qed.
 
+Lemma tx_cmd_fields_int_nocomma c : tx_cmd_valid c ->
+  Forall (fun y => contains_char "," y = false) (tx_cmd_fields_int c).
+Proof.
+  intros [Hk Hm Hg Hs Ha [Hl1 Hl2] [Hs1 Hs2] Hlen Hsl]. unfold tx_cmd_fields_int.
+  constructor; [apply rc_decZ_no; [reflexivity|exact Hm]|].
+  constructor; [rewrite tx_contains_quote by discriminate; exact Hl1|].
+  apply Forall_app. split.
+  - apply Forall_forall. intros y Hy. apply in_map_iff in Hy. destruct Hy as [o [<- Ho]].
+    rewrite Forall_forall in Hsl. apply tx_slot_field_int_no; [exact (Hsl o Ho)|reflexivity|discriminate].
+  - unfold tx_tail_fields. repeat (constructor; [first [reflexivity|idtac]|]); try constructor.
+    + apply rc_decZ_no; [reflexivity|exact Hg].
+    + apply rc_decZ_no; [reflexivity|exact Hs].
+    + rewrite tx_contains_quote by discriminate. exact Hs1.
+    + rewrite rc_contains_app. rewrite rc_decZ_no by (try reflexivity; exact Ha). reflexivity.
+Qed.
+
+(** ... and the whole-number spelling of a command whose volumes are whole numbers of microlitres: both
+    spellings of such a command parse to the same structured command *)
+Lemma tx_parse_render_cmd_int c : tx_cmd_valid c -> Forall slot_whole (cm_slots c) ->
+  parse_cmd (render_cmd_int c) = Some c.
+Proof.
+  intros V W. pose proof V as [Hk Hm Hg Hs Ha [Hl1 Hl2] [Hs1 Hs2] Hlen Hsl].
+  rewrite tx_render_cmd_int_join. unfold parse_cmd. rewrite tx_strip_prefix_app.
+  rewrite tx_cut_first by (destruct Hk as [-> | ->]; reflexivity).
+  replace (String.eqb (cm_kind c) "Aspirate" || String.eqb (cm_kind c) "Dispense") with true
+    by (destruct Hk as [-> | ->]; reflexivity).
+  pose proof (tx_cmd_fields_int_nocomma c V) as HF. unfold tx_cmd_fields_int in *.
+  inversion HF as [|x0 l0 Hx0 HF']. subst x0 l0.
+  rewrite rc_split_join by assumption.
+  rewrite (tx_parse_nat_field _ Hm), (tx_unquote _ Hl2).
+  assert (Hl8 : length (map tx_slot_field_int (cm_slots c)) = 8%nat) by (rewrite map_length; exact Hlen).
+  destruct (tx_firstn_skipn_app (map tx_slot_field_int (cm_slots c)) (tx_tail_fields c) 8 Hl8) as [F S].
+  rewrite F, S, (tx_parse_slots_int _ Hsl W). apply tx_parse_cmd_tail. exact V.
+Qed.
+
 (** hence the text determines the command *)
 Lemma tx_render_cmd_injective c c' : tx_cmd_valid c -> tx_cmd_valid c' -> render_cmd c = render_cmd c' -> c = c'.
 Proof.
@@ -599,11 +698,15 @@ Qed.
 
 Lemma tx_cmd_vols_nonneg v m n qs : cmd_vols v m n = Ok qs -> Forall (fun q => (0 <= q)%Q) qs.
 Proof.
-  unfold cmd_vols. destruct v as [x|l|]; [| |discriminate].
+  unfold cmd_vols. destruct v as [x|l|l|]; [| | |discriminate].
   - destruct (check_volume x (Some m)) as [q|e] eqn:E; [|discriminate]. intro H. injection H as <-.
     apply check_volume_ok in E. destruct E as (_ & H0 & _).
     apply Forall_forall. intros y Hy. apply repeat_spec in Hy. subst y. exact H0.
   - destruct (check_volumes l m) as [qs'|e] eqn:E; [|discriminate].
+    destruct (length qs' =? n)%nat; [|discriminate]. intro H. injection H as <-.
+    apply check_volumes_ok in E. destruct E as [_ HF].
+    apply Forall_forall. intros y Hy. rewrite Forall_forall in HF. exact (proj1 (HF y Hy)).
+  - destruct (check_volumes (int_pvols l) m) as [qs'|e] eqn:E; [|discriminate].
     destruct (length qs' =? n)%nat; [|discriminate]. intro H. injection H as <-.
     apply check_volumes_ok in E. destruct E as [_ HF].
     apply Forall_forall. intros y Hy. rewrite Forall_forall in HF. exact (proj1 (HF y Hy)).
@@ -664,7 +767,46 @@ Proof.
   intros Hk Hlc H. destruct (evo_command_struct_text _ _ _ _ _ _ H) as (c & Hc & ->).
   exists c. split; [|exact Hc].
   apply evo_command_struct_iff in Hc. destruct Hc as (grid & site & qs & lc & bs & sl & sel & A & ->).
-  apply tx_parse_render_cmd. exact (tx_accepted_valid kind R C a m grid site qs lc bs sl sel Hk Hlc A).
+  pose proof (tx_accepted_valid kind R C a m grid site qs lc bs sl sel Hk Hlc A) as V.
+  destruct (c_volume a) as [x|l|l|] eqn:Ecv; cbn [cmd_text]; try (apply tx_parse_render_cmd; exact V).
+  apply tx_parse_render_cmd_int; [exact V|]. cbn [the_cmd cm_slots].
+  pose proof (acc_vols _ _ _ _ _ _ _ _ _ _ _ A) as Hv. rewrite Ecv in Hv.
+  apply cmd_vols_intlist_ok in Hv. subst qs.
+  exact (slots_struct_whole _ _ _ _ (acc_slots _ _ _ _ _ _ _ _ _ _ _ A)).
+Qed.
+
+(** the all-int spelling, spelled out: for per-tip volumes given as a list of Python ints the text is the
+    whole-number rendering of the structured command ("5" where a float list gives "5.0"), every used slot of
+    which is a multiple of 100 hundredths; the text still parses to that command, i.e. to the same command as
+    the float spelling [render_cmd c] of the same volumes *)
+Lemma tx_evo_command_int kind R C a m l text :
+  kind = "Aspirate" \/ kind = "Dispense" -> tx_lc_clean (c_liquid_class a) ->
+  c_volume a = CVIntList l ->
+  evo_command kind R C a m = Ok text ->
+  exists c,
+    evo_command_struct kind R C a m = Ok c /\ text = render_cmd_int c /\
+    Forall slot_whole (cm_slots c) /\
+    parse_cmd text = Some c /\ parse_cmd (render_cmd c) = Some c /\
+    length l = length (flattenF (c_wells a)) /\
+    track_vols a = map (fun z => XQ (inject_Z z)) l /\
+    Forall (fun z => (0 <= z)%Z /\ (inject_Z z <= m)%Q) l.
+Proof.
+  intros Hk Hlc Ecv H. destruct (evo_command_struct_text _ _ _ _ _ _ H) as (c & Hc & ->).
+  exists c. split; [exact Hc|]. rewrite Ecv. cbn [cmd_text]. split; [reflexivity|].
+  apply evo_command_struct_iff in Hc. destruct Hc as (grid & site & qs & lc & bs & sl & sel & A & ->).
+  pose proof (tx_accepted_valid kind R C a m grid site qs lc bs sl sel Hk Hlc A) as V.
+  pose proof (acc_vols _ _ _ _ _ _ _ _ _ _ _ A) as Hv.
+  pose proof (cmd_vols_track _ _ _ Hv) as Ht. pose proof (cmd_vols_length _ _ _ _ Hv) as Hlen.
+  rewrite Ecv in Hv. pose proof Hv as Hv'. apply cmd_vols_intlist_ok in Hv'. subst qs.
+  assert (W : Forall slot_whole (cm_slots (the_cmd kind R C a grid site lc bs sl sel))).
+  { cbn [the_cmd cm_slots]. exact (slots_struct_whole _ _ _ _ (acc_slots _ _ _ _ _ _ _ _ _ _ _ A)). }
+  split; [exact W|]. split; [exact (tx_parse_render_cmd_int _ V W)|]. split; [exact (tx_parse_render_cmd _ V)|].
+  split; [rewrite map_length in Hlen; exact Hlen|]. split; [rewrite Ht, map_map; reflexivity|].
+  unfold cmd_vols in Hv. destruct (check_volumes (int_pvols l) m) as [qs'|e] eqn:E; [|discriminate].
+  apply check_volumes_ok in E. destruct E as [Hq HF]. apply int_pvols_eq in Hq. subst qs'.
+  apply Forall_forall. intros z Hz. rewrite Forall_forall in HF.
+  destruct (HF (inject_Z z) (in_map inject_Z l z Hz)) as (H0 & _ & Hm). split; [|exact Hm].
+  unfold Qle, inject_Z in H0. cbn [Qnum Qden] in H0. lia.
 Qed.
 
 (** two accepted calls with the same text have the same structured command *)
